@@ -42,6 +42,13 @@ type embOuter struct {
 // a map whose key type is a named string type
 type namedKey string
 
+// a struct with a pointer (so that it is printed by values.Sprint's own walk) and unexported containers
+type hiddenMapStruct struct {
+	Name *string
+	tags map[string]int
+	list []any
+}
+
 // a struct that embeds a pointer: with the pointer nil, the promoted methods (Year, Zone, ...) have nothing to run on
 type embTime struct {
 	*time.Time
@@ -202,6 +209,7 @@ func Universe() []UVal {
 		rawU("*struct", func() any { return &dataStruct{Title: "P", Count: 4} }),
 		rawU("(*struct)(nil)", func() any { var p *dataStruct; return p }),
 		rawU("struct{ptr,map}", func() any { i := 7; return ptrStruct{A: 1, P: &i, M: map[string]int{"a": 1}} }),
+		rawU("struct{ptr,unexported map}", func() any { n := "x"; return hiddenMapStruct{Name: &n, tags: map[string]int{"a": 1, "b": 2}, list: []any{1, "x"}} }),
 		rawU("struct{any:map}", func() any { return anyStruct{Name: "home", Data: map[string]any{"k": []any{1}}} }),
 		rawU("struct{any:slice}", func() any { return anyStruct{Name: "home", Data: []any{1, "x"}} }),
 		rawU("[]*int", func() any { a, b := 1, 2; return []*int{&a, &b, nil} }),
